@@ -180,6 +180,21 @@ def register_leaves():
 
 
 _RULE_LEAVES = {}
+_DC_ITEM = {}
+
+
+def dc_item():
+    """A small data class used as a container element: field `a` is left out when invalid (exclude), has a default and
+    depends on the optional `b`; `l` is a leaf."""
+    if not _DC_ITEM:
+        from utype import Schema, Field
+        ns = {"__annotations__": {"a": int, "b": int, "l": Leaf}, "__module__": "verif_item", "__qualname__": "Item",
+              "a": Field(default=0, on_error="exclude", dependencies=["b"]), "b": Field(required=False), "l": Field(required=False)}
+        import sys
+        import types
+        sys.modules.setdefault("verif_item", types.ModuleType("verif_item"))
+        _DC_ITEM["cls"] = type("Item", (Schema,), ns)
+    return _DC_ITEM["cls"]
 
 
 def rule_leaves():
